@@ -37,9 +37,13 @@ func main() {
 			s.Repair(members, 6)
 			live := append([]uint64{}, members...)
 			tag := "stable"
+			race := false
+			var victimID uint64
+			var raceX uint64
 			if len(members) >= 3 && rng.Chance(70) {
 				// kill one node; its successor detects it; its predecessor repairs its list, Notify lost
 				victim := hlib.Pick(rng, members)
+				victimID = victim
 				s.Do("crash", ringh.U(victim))
 				live = live[:0]
 				for _, m := range members {
@@ -47,10 +51,26 @@ func main() {
 						live = append(live, m)
 					}
 				}
+				// the victim's successor: the node whose predecessor pointer now names a dead node
+				raceX = members[0]
+				best := uint64(0)
 				for _, m := range live {
-					s.Do("checkpred", ringh.U(m))
+					if d := (m + ringh.M - victim) % ringh.M; best == 0 || d < best {
+						best, raceX = d, m
+					}
 				}
-				if rng.Chance(70) {
+				if rng.Chance(35) {
+					// failure detection has NOT run yet: it will run concurrently with the join requests below,
+					// between the routing decision and the membership lock (reqjoinrace)
+					race = true
+					tag = "pred-race"
+				} else {
+					for _, m := range live {
+						s.Do("checkpred", ringh.U(m))
+					}
+				}
+				if race {
+				} else if rng.Chance(70) {
 					for _, m := range live {
 						s.Do("stabilizex", ringh.U(m))
 					}
@@ -93,9 +113,28 @@ func main() {
 					}
 				}
 				target := hlib.Pick(rng, live)
-				lhs := "reqjoin " + ringh.U(target) + " " + ringh.U(j)
-				run.Begin(lhs)
-				res := s.Do("reqjoin", ringh.U(target), ringh.U(j))
+				var res string
+				if race {
+					if rng.Chance(60) {
+						// a joiner in the dead node's range, i.e. one the racing node is responsible for
+						j = (victimID + 1 + uint64(rng.Intn(3))) % ringh.M
+						if j != victimID {
+							known := false
+							for _, m := range ids {
+								known = known || m == j
+							}
+							if !known {
+								ids = append(ids, j)
+								s.Do("new", ringh.U(j))
+							}
+						}
+					}
+					run.Begin("reqjoinrace " + ringh.U(target) + " " + ringh.U(j) + " " + ringh.U(raceX))
+					res = s.Do("reqjoinrace", ringh.U(target), ringh.U(j), ringh.U(raceX))
+				} else {
+					run.Begin("reqjoin " + ringh.U(target) + " " + ringh.U(j))
+					res = s.Do("reqjoin", ringh.U(target), ringh.U(j))
+				}
 				run.Case(hlib.F("%s|%v|%d|%d", tag, members, target, j))
 				if strings.HasPrefix(res, "ok:") {
 					// release the membership lock so that further requests see an Active node again
